@@ -185,6 +185,8 @@ class FuncUnit(Unit):
         val = {'samples': 0, 'mismatches': [], 'paths_hit': set()}
         nat = {'samples': 0, 'failures': []}
         f = self.native()
+        if hasattr(k, 'native_call'):
+            f = None
         samples = []
         import xfab
         for _ in range(n):
@@ -192,10 +194,10 @@ class FuncUnit(Unit):
             if vals is None:
                 break
             samples.append(vals)
-            args = native_args(k, vals)
+            args = native_args(k, vals) if f is not None else None
             xfab.CHECKS.activated = self.checks_activated
             try:
-                res = ('return', f(*args))
+                res = ('return', f(*args) if f is not None else k.native_call(*vals))
             except Exception as e:        # noqa
                 res = ('raise', e)
             finally:
